@@ -17,7 +17,7 @@ Statements (tuples):
                                             | ("loopidx", k) | ("elt", k);  form: "ctx" | "cb"
   ("loop", n, form, body)               form: "ctx" | "cb"
   ("foreach", a, body)  ("enumerate", a, body)
-  ("loop_until", max, body, f, v)       f: future name measured in body
+  ("loop_until", max, body, f, v[, cleanup])   f: future name measured in body; cleanup: statements of the clean-up routine
   ("add", target, other, mod)           target: ("fut", f) | ("arrfut", a, idx) | ("regfut", r) | ("elt", k)
   ("flush",)
 k counts enclosing loops/foreachs from the outermost (0) inwards.
@@ -161,6 +161,7 @@ class Evaluator:
             self.loops.pop()
         elif k == "loop_until":
             mx, body, f, v = s[1], s[2], s[3], s[4]
+            cleanup = s[5] if len(s) > 5 else None
             self.loops.append({"i": 0, "elt": None})
             for it in range(mx):
                 self.loops[-1]["i"] = it
@@ -170,6 +171,10 @@ class Evaluator:
                     if it < mx - 1:
                         self.stats["loop_until-early-exit"] = self.stats.get("loop_until-early-exit", 0) + 1
                     break
+                if cleanup:
+                    # the clean-up routine runs after every iteration that did not meet the exit condition
+                    self.stats["loop_until-cleanup-ran"] = self.stats.get("loop_until-cleanup-ran", 0) + 1
+                    self.run(cleanup)
             self.loops.pop()
         elif k == "add":
             target, other, mod = s[1], s[2], s[3]
@@ -501,10 +506,17 @@ class HostGen:
             self.define(("fut", f))
             if ch.flag(1, 3, "luextra"):
                 b += self.stmt(top=False)
+            cleanup: List[tuple] = []
+            if self.ok("loop-until-cleanup") and ch.flag(1, 3, "lucleanup"):
+                for _ in range(1 + ch.draw(2, "ncleanup")):
+                    cleanup += self.stmt(top=False)
+                if cleanup:
+                    self.kinds.add("loop-until-cleanup")
             self.defined.pop()
             self.scope_q.pop()
             self.loops.pop()
-            return [("loop_until", mx, b, f, ch.draw(2, "luv"))]
+            v = ch.draw(2, "luv")
+            return [("loop_until", mx, b, f, v, cleanup)] if cleanup else [("loop_until", mx, b, f, v)]
         if kind == "add":
             cands = [r for r in self.all_defined()]
             for k, lp in enumerate(self.loops):
